@@ -98,23 +98,52 @@ def call_tr(m, arg, direction, topt=None, **kw):
     o.update(topt or {})
     return abel.Transform(arg, method=m, direction=direction, transform_options=o, **kw).transform
 
-def outcome_all(fs, Xin):
+def outcome_all(fs, Xin, m=None):
     """A cell that stands for 'any value outside the documented set' is run
     with several such values (near-misses of the documented names included);
     the first one that does not raise decides the outcome."""
     for val, f in fs:
-        o = outcome(f, Xin)
+        o = outcome(f, Xin, m)
         if not o.startswith('raise'):
             return o + '@' + repr(val)
     return o
 
-def outcome(f, Xin):
-    fresh()
+def warm(m):
+    """Fill the caches of method m by ordinary valid requests on the full-size
+    data (both directions where implemented): the answer to a request must not
+    depend on what was asked before."""
+    if m is None:
+        return
+    arg = IM if m in FULLM else HALF
+    for d in ('inverse', 'forward'):
+        try:
+            FUN[m](arg, direction=d)
+        except Exception:
+            pass
+
+def once(f, Xin):
     try:
         R = f()
     except Exception as e:
         return 'raise:' + type(e).__name__
     return classify(R, Xin)
+
+def outcome(f, Xin, m=None):
+    """The request is made in three cache states: empty caches; after ordinary
+    valid requests of the same method; and once more immediately after itself.
+    The outcome class must be the same in all three -- the first state that
+    answers differently from the empty-cache state is reported."""
+    fresh()
+    o0 = once(f, Xin)
+    fresh()
+    warm(m)
+    o1 = once(f, Xin)
+    o2 = once(f, Xin)
+    cls = lambda o: 'raise' if o.startswith('raise') else o
+    for tag, o in (('after-valid-requests', o1), ('repeated', o2)):
+        if cls(o) != cls(o0):
+            return o + '~' + tag
+    return o0
 '''
 
 
@@ -177,9 +206,9 @@ def cell_expr(via, m, d, sh, o):
         if o in BAD_VALUES:
             fs = ', '.join("(%r, lambda: call_fn(%r, %s, direction=%r, %s=%r))" % (v, m, arg, d, OPT_ARG[o], v)
                            for v in BAD_VALUES[o])
-            return "outcome_all([%s], %s)" % (fs, arg)
+            return "outcome_all([%s], %s, %r)" % (fs, arg, m)
         kw = (', ' + OPT_KW[o]) if o in OPT_KW else ''
-        return "outcome(lambda: call_fn(%r, %s, direction=%r%s), %s)" % (m, arg, d, kw, arg)
+        return "outcome(lambda: call_fn(%r, %s, direction=%r%s), %s, %r)" % (m, arg, d, kw, arg, m)
     arg = dict(Fine='IM', OneD='IM[3]', TwoRows='IM[9:11]', OneCol='IM[:, 10:11]', TwoCols='IM[:, 9:12]',
                NonSquare='IM[2:-2]', EvenSize='IM[:-1, :-1]')[sh]
     if o == 'BadMethod':
@@ -190,17 +219,17 @@ def cell_expr(via, m, d, sh, o):
         tmpl = dict(BadOrigin="origin=%r", BadCrop="origin=(10, 10), center_options=dict(crop=%r)",
                     BadSymMethod="symmetrize_method=%r")[o]
         fs = ', '.join("(%r, lambda: call_tr(%r, %s, %r, %s))" % (v, m, arg, d, tmpl % v) for v in BAD_VALUES[o])
-        return "outcome_all([%s], %s)" % (fs, arg)
+        return "outcome_all([%s], %s, %r)" % (fs, arg, m)
     if o in BAD_VALUES:
         fs = ', '.join("(%r, lambda: call_tr(%r, %s, %r, topt={%r: %r}))" % (v, m, arg, d, OPT_ARG[o], v)
                        for v in BAD_VALUES[o])
-        return "outcome_all([%s], %s)" % (fs, arg)
+        return "outcome_all([%s], %s, %r)" % (fs, arg, m)
     kw = ''
     if o in OPT_KW:
         kw = ', topt=dict(%s)' % OPT_KW[o]
     elif o in TR_KW:
         kw = ', ' + TR_KW[o]
-    return "outcome(lambda: call_tr(%r, %s, %r%s), %s)" % (m, arg, d, kw, arg)
+    return "outcome(lambda: call_tr(%r, %s, %r%s), %s, %r)" % (m, arg, d, kw, arg, m)
 
 
 def cells():
@@ -304,12 +333,12 @@ def run(ctx):
     k = -1
     for (cid, term, expr) in cs:
         o = res[cid]
-        oc = 'raise' if o.startswith('raise') else o.split('@')[0]
+        oc = 'raise' if o.startswith('raise') and '~' not in o else o.split('@')[0]
         dist[oc] = dist.get(oc, 0) + 1
         want = expected(cid)
         # the property itself: raise, or perform exactly what was requested
         if oc not in want:
-            snippet = PRELUDE + '\no = %s\nprint(%r, "->", o)\no = "raise" if o.startswith("raise") else o.split("@")[0]\nsys.exit(0 if o in %r else 1)\n' % (expr, cid, sorted(want))
+            snippet = PRELUDE + '\no = %s\nprint(%r, "->", o)\no = "raise" if o.startswith("raise") and "~" not in o else o.split("@")[0]\nsys.exit(0 if o in %r else 1)\n' % (expr, cid, sorted(want))
             hits.append(Hit('loud_or_honoured', 'C20:' + cid,
                             'request %s is answered with "%s"; the property allows only %s' % (cid, o, sorted(want)),
                             snippet, dict(cell=cid, observed=o, allowed=sorted(want))))
@@ -319,7 +348,7 @@ def run(ctx):
                 disagreements.append((cid, CODE.get(model[k]), o))
     ctx.cov.update(evaluations=len(cs), distinct_nontrivial=len(set(c[0] for c in cs)),
                    traces_validated_against_impl=len(cs) - len(disagreements),
-                   rule='one call (for an option value outside its documented set: one call per candidate bad value, near-misses of the documented names included) per cell of the request grid (families: 10 methods x 3 directions x {function, Transform}; '
+                   rule='three calls (empty caches / after valid requests of the same method / repeated) per request (for an option value outside its documented set: one request per candidate bad value, near-misses of the documented names included) per cell of the request grid (families: 10 methods x 3 directions x {function, Transform}; '
                         'shapes violating a stated requirement; option values outside their documented sets); every cell is distinct',
                    samples=[dict(cell=c[0], observed=res[c[0]]) for c in cs[:6]],
                    exhaustive=True, outcome_distribution=dist, correspondence_disagreements=len(disagreements))
@@ -339,4 +368,4 @@ def run(ctx):
     ctx.assumptions += ['the model coq/model/Dispatch.v is hand-written from the guards in transform.py, dasch.py, '
                         'onion_bordas.py, linbasex.py, daun.py, rbasex.py, center.py, symmetry.py and is compared with '
                         'the implementation on every executed cell',
-                        'cells are executed with fresh caches (cache history is property C07)']
+                        'every cell is executed in three cache states (empty; after valid requests of the same method; repeated immediately) and must give the same outcome class in all three; longer histories are property C07']
